@@ -63,15 +63,28 @@ func (er *entryReaderImpl) Read(now time.Time) ([]*entry, error) {
 
 	var entries []*entry
 	addEntriesFn := func(workflow *dag.DAG, s []dag.Schedule, e entryType) {
+		// One entry per workflow and operation: the earliest activation among
+		// its schedules of this kind. Several schedules that fire at the same
+		// minute must not trigger the operation more than once.
+		var next time.Time
 		for _, ss := range s {
-			next := ss.Parsed.Next(now)
-			entries = append(entries, &entry{
-				Next:      ss.Parsed.Next(now),
-				Job:       er.jobCreator.CreateJob(workflow, next),
-				EntryType: e,
-				Logger:    er.logger,
-			})
+			n := ss.Parsed.Next(now)
+			if n.IsZero() {
+				continue
+			}
+			if next.IsZero() || n.Before(next) {
+				next = n
+			}
 		}
+		if next.IsZero() {
+			return
+		}
+		entries = append(entries, &entry{
+			Next:      next,
+			Job:       er.jobCreator.CreateJob(workflow, next),
+			EntryType: e,
+			Logger:    er.logger,
+		})
 	}
 
 	for _, workflow := range er.dags {
